@@ -1,11 +1,13 @@
 /-
   C14 — the whole set-up of a `build_file` (`_prepare_file_creation` = `_make_room` where needed, then `_make_dirs`)
   under a fault at any of its mutating calls: the bookkeeping of the build stays `Undoable`, so the rollback that
-  follows an uncaught fault restores exactly the pre-build regular files (`C14_prepare_fault_rollback`).
+  follows an uncaught fault restores exactly the pre-build regular files (`C14_prepare_fault_rollback`); and a set-up that
+  fails leaves nothing new in the tree (`prepare_failure_leaves_nothing`, with `makeRoomF_wf`).
 -/
 import FB.PrepareF
 import FB.Props.C14MakeRoomFUndo
 import FB.Props.C14MakeDirsFUndo
+import FB.Props.C04WellFormed
 namespace FB
 namespace Rollback
 open FS Spec Backups BuildDirs
@@ -204,6 +206,183 @@ theorem C14_prepare_fault_rollback (vd vf : Path → Bool) (oldCreated : List Pa
   intro o
   exact rollBack_restores_files P0 o.st.fs (rbOf r o.st) hwf0
     (prepare_undoable vd vf oldCreated fa fuel P0 r fs target dirs h hbelow hnd hdirs)
+
+/-- the premises of `C14_prepare_fault_rollback` are met (non-vacuity): the set-up of the FIRST `build_file` of a build,
+    on any well-formed tree, any target, any distinct parents that do not lie below the target, the fault anywhere -/
+theorem C14_prepare_fault_rollback_first_step (vd vf : Path → Bool) (oldCreated : List Path) (fa : Option Nat) (fuel : Nat)
+    (P0 : FS) (hwf0 : TreeWF P0) (oldOutputs oldCreatedDirs : List Path) (target : Path) (dirs : List Path)
+    (hnd : dirs.Nodup) (hnb : ∀ d ∈ dirs, ¬ target <+: d) :
+    let r : RB := { oldOutputs := oldOutputs, oldCreatedDirs := oldCreatedDirs }
+    let o := PrepareF.prepare vd vf oldCreated fa fuel P0 r.bk target dirs
+    ∀ p c m, P0.get p = some (.file c m) → (rollBack o.st.fs (rbOf r o.st)).get p = some (.file c m) := by
+  intro r o
+  exact (C14_prepare_fault_rollback vd vf oldCreated fa fuel P0 hwf0 r P0 target dirs
+    (Undoable.start P0 oldOutputs oldCreatedDirs)
+    (fun _ _ => ⟨(fun h => nomatch h), (fun h => nomatch h)⟩) hnd
+    (fun d hd => ⟨(fun h => nomatch h), (fun h => nomatch h), hnb d hd⟩)).1
+
+/-- `_make_room` keeps the tree well-formed (parents of entries are directories), wherever it stops -/
+theorem entriesF_wf (vd vf : Path → Bool) (fa : Option Nat) (fuel : Nat)
+    (hmr : ∀ (c c' : C) (d : Path), TreeWF c.st.fs →
+      (MakeRoomF.makeRoom vd vf fa fuel c d = .ok c' ∨ MakeRoomF.makeRoom vd vf fa fuel c d = .error c') → TreeWF c'.st.fs) :
+    ∀ (l : List String) (c c' : C) (d : Path), TreeWF c.st.fs →
+      (MakeRoomF.entries vd vf fa fuel c d l = .ok c' ∨ MakeRoomF.entries vd vf fa fuel c d l = .error c') → TreeWF c'.st.fs := by
+  intro l
+  induction l with
+  | nil =>
+    intro c c' d h hr
+    rw [MakeRoomF.entries] at hr
+    rcases hr with hr | hr
+    · simp only [Except.ok.injEq] at hr; rw [← hr]; exact h
+    · cases hr
+  | cons n rest ih =>
+    intro c c' d h hr
+    rw [MakeRoomF.entries] at hr
+    simp only at hr
+    by_cases hd : c.st.fs.isDir (d ++ [n]) = true
+    · simp only [hd, if_true] at hr
+      by_cases hv : vd (d ++ [n]) = true
+      · simp only [hv, if_true] at hr
+        rcases hr with hr | hr
+        · cases hr
+        · simp only [Except.error.injEq] at hr; rw [← hr]; exact h
+      · have hv' : vd (d ++ [n]) = false := by simpa using hv
+        simp only [hv', Bool.false_eq_true, if_false] at hr
+        cases hm : MakeRoomF.makeRoom vd vf fa fuel c (d ++ [n]) with
+        | error c1 =>
+          rw [hm] at hr
+          rcases hr with hr | hr
+          · cases hr
+          · simp only [Except.error.injEq] at hr; rw [← hr]; exact hmr c c1 _ h (Or.inr hm)
+        | ok c1 =>
+          rw [hm] at hr
+          exact ih c1 c' d (hmr c c1 _ h (Or.inl hm)) hr
+    · have hd' : c.st.fs.isDir (d ++ [n]) = false := by simpa using hd
+      simp only [hd', Bool.false_eq_true, if_false] at hr
+      by_cases hv : vf (d ++ [n]) = true
+      · simp only [hv, if_true] at hr
+        rcases hr with hr | hr
+        · cases hr
+        · simp only [Except.error.injEq] at hr; rw [← hr]; exact h
+      · have hv' : vf (d ++ [n]) = false := by simpa using hv
+        simp only [hv', Bool.false_eq_true, if_false] at hr
+        by_cases hf : fa = some c.n
+        · simp only [hf, if_true] at hr
+          rcases hr with hr | hr
+          · cases hr
+          · simp only [Except.error.injEq] at hr; rw [← hr]; exact h
+        · simp only [hf, if_false] at hr
+          refine ih _ c' d ?_ hr
+          show TreeWF (Backups.backUpAndRemove c.st.fs c.st.bk (d ++ [n])).1
+          unfold Backups.backUpAndRemove
+          cases hg : c.st.fs.get (d ++ [n]) with
+          | none => exact h
+          | some e =>
+            cases e with
+            | dir => simp [FS.isDir, hg] at hd'
+            | file b m => exact wf_erase_nondir _ _ h hd'
+
+theorem makeRoomF_wf (vd vf : Path → Bool) (fa : Option Nat) : ∀ (fuel : Nat) (c c' : C) (d : Path), TreeWF c.st.fs →
+    (MakeRoomF.makeRoom vd vf fa fuel c d = .ok c' ∨ MakeRoomF.makeRoom vd vf fa fuel c d = .error c') → TreeWF c'.st.fs := by
+  intro fuel
+  induction fuel with
+  | zero =>
+    intro c c' d h hr
+    rw [MakeRoomF.makeRoom] at hr
+    rcases hr with hr | hr
+    · cases hr
+    · simp only [Except.error.injEq] at hr; rw [← hr]; exact h
+  | succ fuel ihf =>
+    intro c c' d h hr
+    rw [MakeRoomF.makeRoom] at hr
+    have hen := entriesF_wf vd vf fa fuel ihf (c.st.fs.listdir d) c
+    cases he : MakeRoomF.entries vd vf fa fuel c d (c.st.fs.listdir d) with
+    | error c1 =>
+      rw [he] at hr
+      rcases hr with hr | hr
+      · cases hr
+      · simp only [Except.error.injEq] at hr; rw [← hr]; exact hen c1 d h (Or.inr he)
+    | ok c1 =>
+      rw [he] at hr
+      simp only at hr
+      have h1 := hen c1 d h (Or.inl he)
+      by_cases hf : fa = some c1.n
+      · simp only [hf, if_true] at hr
+        rcases hr with hr | hr
+        · cases hr
+        · simp only [Except.error.injEq] at hr; rw [← hr]; exact h1
+      · simp only [hf, if_false] at hr
+        cases hrm : c1.st.fs.rmdir d with
+        | error e =>
+          rw [hrm] at hr
+          rcases hr with hr | hr
+          · cases hr
+          · simp only [Except.error.injEq] at hr; rw [← hr]; exact h1
+        | ok fs' =>
+          rw [hrm] at hr
+          rcases hr with hr | hr
+          · simp only [Except.ok.injEq] at hr
+            rw [← hr]
+            have := wf_rmdirStep c1.st.fs d h1
+            unfold rmdirStep at this
+            rw [hrm] at this
+            exact this
+          · cases hr
+
+/-- **C10/C14 for the whole set-up: a set-up that fails leaves nothing new** - whichever call fails, in `_make_room` or
+    in `_make_dirs`, by itself or by the injected fault: every entry of the tree it leaves was there before, unchanged
+    (what is gone is in the undo log or was an unknown directory: `makeRoomF_moved`, `prepare_undoable`) -/
+theorem prepare_failure_leaves_nothing (vd vf : Path → Bool) (oldCreated : List Path) (fa : Option Nat) (fuel : Nat)
+    (fs : FS) (bk : Backups.BK) (target : Path) (dirs : List Path) (hwf : TreeWF fs)
+    (hfail : (PrepareF.prepare vd vf oldCreated fa fuel fs bk target dirs).kind ≠ .ok) :
+    ∀ q, (PrepareF.prepare vd vf oldCreated fa fuel fs bk target dirs).st.fs.get q ≠ none →
+      (PrepareF.prepare vd vf oldCreated fa fuel fs bk target dirs).st.fs.get q = fs.get q := by
+  -- the second phase on top of any well-formed tree that has only lost entries
+  have hsecond : ∀ (st1 : MakeRoom.St) (n1 : Nat) (e : MakeDirs.St × Nat), TreeWF st1.fs →
+      (∀ q, st1.fs.get q ≠ none → st1.fs.get q = fs.get q) →
+      MakeDirsF.loop oldCreated fa dirs n1 { fs := st1.fs, bk := st1.bk } = .error e →
+      ∀ q, e.1.fs.get q ≠ none → e.1.fs.get q = fs.get q := by
+    intro st1 n1 e hwf1 h1 hl q hq
+    have := MakeDirsF.loop_error oldCreated fa st1.fs hwf1 dirs n1 { fs := st1.fs, bk := st1.bk } e
+      ⟨(fun d hd => by simp at hd), (fun q _ => Or.inl rfl), (fun d hd => by simp at hd), (fun d hd => by simp at hd)⟩ hl q
+    rcases this with h | ⟨_, h⟩
+    · rw [h]; exact h1 q (by rw [← h]; exact hq)
+    · exact absurd h hq
+  have hmoved : ∀ (c : C), MakeRoom.Moved vd vf target { fs := fs, bk := bk } c.st →
+      ∀ q, c.st.fs.get q ≠ none → c.st.fs.get q = fs.get q := by
+    intro c hm q hq
+    rcases hm.tree q with h | ⟨h, _⟩
+    · exact h
+    · exact absurd h hq
+  intro q hq
+  unfold PrepareF.prepare at hfail hq ⊢
+  by_cases hd : fs.isDir target = true
+  · simp only [hd, if_true] at hfail hq ⊢
+    by_cases hv : vd target = true
+    · simp only [hv, if_true] at hfail hq ⊢
+    · have hv' : vd target = false := by simpa using hv
+      simp only [hv', Bool.false_eq_true, if_false] at hfail hq ⊢
+      cases hm : MakeRoomF.makeRoom vd vf fa fuel { st := { fs := fs, bk := bk } } target with
+      | error c =>
+        simp only [hm] at hfail hq ⊢
+        exact hmoved c (MakeRoomF.makeRoomF_moved vd vf fa fuel _ target c (Or.inr hm)) q hq
+      | ok c =>
+        simp only [hm] at hfail hq ⊢
+        have hmv := MakeRoomF.makeRoomF_moved vd vf fa fuel _ target c (Or.inl hm)
+        have hwf1 := makeRoomF_wf vd vf fa fuel _ c target hwf (Or.inl hm)
+        cases hl : MakeDirsF.loop oldCreated fa dirs c.n { fs := c.st.fs, bk := c.st.bk } with
+        | ok out => obtain ⟨st2, n2⟩ := out; simp only [hl] at hfail; exact absurd rfl hfail
+        | error out =>
+          obtain ⟨st2, n2⟩ := out
+          simp only [hl] at hq ⊢
+          exact hsecond c.st c.n (st2, n2) hwf1 (hmoved c hmv) hl q hq
+  · simp only [hd, Bool.false_eq_true, if_false] at hfail hq ⊢
+    cases hl : MakeDirsF.loop oldCreated fa dirs 0 { fs := fs, bk := bk } with
+    | ok out => obtain ⟨st2, n2⟩ := out; simp only [hl] at hfail; exact absurd rfl hfail
+    | error out =>
+      obtain ⟨st2, n2⟩ := out
+      simp only [hl] at hq ⊢
+      exact hsecond { fs := fs, bk := bk } 0 (st2, n2) hwf (fun _ _ => rfl) hl q hq
 
 end Rollback
 end FB
